@@ -3,13 +3,18 @@
    and the checkers evaluated on what the implementation did.
    [agree] compares with the model; [holds] is the property:
      - an input meeting all requirements with margin ([Valid]) is accepted, the
-       effective population size is >= 10 * samples, and the simulation ran to
-       completion (a breakpoint file with at least one haplotype was written);
+       effective population size (what validate_params returns AND what every
+       call of _simulate receives) is >= 10 * samples, and the simulation ran to
+       completion: the breakpoint file it wrote passes C02's file checker
+       ([C02_Check.holds_bp]: 2n haplotype headers Sample_k_{1,2} in order, every
+       haplotype tiles every requested chromosome, in the requested order, up to
+       the chromosome-end sentinel, every label is a source population with a
+       positive fraction in some generation line);
      - an input violating a documented requirement (and nothing else) is
        refused before anything is simulated by a deliberate error whose message
        names a requirement that the input really violates;
      - anything else (undocumented malformations): no demand. *)
-From HV Require Import Prelude C20_Model.
+From HV Require Import Prelude Tracts Tiling C02_Model C02_Check C20_Model.
 From Coq Require Import QArith Qabs.
 Open Scope Z_scope.
 
@@ -220,8 +225,25 @@ Definition strict_b (i : vin) : bool :=
 
 Definition valid_b (i : vin) : bool := wf_b i && strict_b i && side_ok_b i.
 
+(* ------------------------------------------------------------ the written .bp file *)
+(* What C02's checker needs, all read off the input itself: the requested
+   chromosomes in order (X = 23), the number of samples, the fractions of the
+   generation lines (column 0 = admixed).  The rows are the .bp file as parsed
+   by the harness (population = index of the label among the header's
+   population columns, -1 when it is none of them; the cM column is not
+   encoded - every token 0 - so [cm_monotone] is vacuous: C20 makes no demand
+   on it; haptools' own readers are not run here: [b_reader_ok] = true).
+   With --region the file still ends every chromosome at the sentinel (C02). *)
+Definition req_chroms (i : vin) : list Z := map chr_key (v_chroms i).
+Definition model_fracs (i : vin) : list (list Q) := map line_fracs (gen_toks i).
+Definition bp_case (i : vin) (n : Z) (rows : list bprow) : bcase :=
+  mkb (req_chroms i) n (model_fracs i) [] [] (Ok rows) true.
+Definition bp_ok (i : vin) (n : Z) (rows : list bprow) : bool := holds_bp (bp_case i n rows).
+
 (* ------------------------------------------------------------ cases *)
-Inductive simres := Completed (headers : Z) | SimFailed (kind : Z) | NotRun.
+(* [Completed eff rows]: simulate_gt and write_breakpoints returned; eff = the
+   smallest population size any call of _simulate received; rows = the .bp file *)
+Inductive simres := Completed (eff : Z) (rows : list bprow) | SimFailed (kind : Z) | NotRun.
 
 Record vcase := mkvc {
   c_in : vin;
@@ -237,7 +259,11 @@ Definition holds_outcome (i : vin) (o : outcome) (s : simres) : bool :=
     if valid_b i then
       match o, nsamples i with
       | Accept ps, Some n =>
-          (10 * n <=? ps) && match s with Completed h => 0 <? h | _ => false end
+          (10 * n <=? ps)
+          && match s with
+             | Completed eff rows => (10 * n <=? eff) && bp_ok i n rows
+             | _ => false      (* SimFailed incl. kind 12 = no result within the time limit *)
+             end
       | _, _ => false
       end
     else if side_ok_b i && negb (is_none (hd_error (violated i))) then
@@ -265,20 +291,30 @@ Definition with_args (base : vin) (a : cli_args) (only_bp : bool) : vin :=
         only_bp (v_ref base) (v_sinfo base) (v_norepl base)
         (match a_region a with Some (_, s, e) => Some (s, e) | None => None end).
 
+Definition with_popsize (i : vin) (p : Z) : vin :=
+  mkvin (v_header i) (v_gens i) (v_isdir i) (v_chroms i) (v_files i) p
+        (v_only_bp i) (v_ref i) (v_sinfo i) (v_norepl i) (v_region i).
+
 Record clicase := mkcli {
   l_base : vin;
   l_chroms : option str;          (* --chroms value; None = option absent *)
   l_region : option str;          (* --region value *)
   l_only_bp : bool;
+  l_popsize : Z;                  (* --popsize value (click's default 10000 when the option is absent) *)
   l_args : option cli_args;       (* what validate_params was called with; None = never called *)
+  l_recv_ps : Z;                  (* the popsize validate_params received (= l_popsize when never called) *)
   l_front : outcome;
   l_sim : simres
 }.
 
+(* the input validate_params sees for parsed options a *)
+Definition cli_vin (c : clicase) (a : cli_args) : vin :=
+  with_popsize (with_args (l_base c) a (l_only_bp c)) (l_popsize c).
+
 Definition model_cli (c : clicase) : option cli_args * outcome :=
   match cli_parse (l_chroms c) (l_region c) with
   | inl f => (None, out_of_fail f)
-  | inr a => (Some a, front false false (with_args (l_base c) a (l_only_bp c)))
+  | inr a => (Some a, front false false (cli_vin c a))
   end.
 
 (* the requirements are judged on the arguments validate_params actually received
@@ -286,14 +322,14 @@ Definition model_cli (c : clicase) : option cli_args * outcome :=
    never called although the run went on, on the model's parse of the options *)
 Definition holds_cli (c : clicase) : bool :=
   match l_args c with
-  | Some a => holds_outcome (with_args (l_base c) a (l_only_bp c)) (l_front c) (l_sim c)
+  | Some a => holds_outcome (cli_vin c a) (l_front c) (l_sim c)
   | None =>
       match l_front c, cli_parse (l_chroms c) (l_region c) with
-      | Accept _, inr a => holds_outcome (with_args (l_base c) a (l_only_bp c)) (l_front c) (l_sim c)
+      | Accept _, inr a => holds_outcome (cli_vin c a) (l_front c) (l_sim c)
       | _, _ => true
       end
   end.
 
 Definition check_cli (c : clicase) : bool * bool :=
   let '(a, o) := model_cli c in
-  (opt_eqb args_eqb a (l_args c) && outcome_eqb o (l_front c), holds_cli c).
+  (opt_eqb args_eqb a (l_args c) && (l_recv_ps c =? l_popsize c) && outcome_eqb o (l_front c), holds_cli c).
